@@ -204,9 +204,13 @@ def replay(ctx, path):
 MANIFEST = {
     "level_text": ("Lean 4 proof over an exact executable model of the kube registry controller's caches (PodCache podsByIP/ipByPods/"
                    "needResync, endpointSliceCache, servicesMap, the EndpointIndex shard), of the informer stores (handlers read the "
-                   "latest object) and of the event queue. The model is tied to /repo on every run by a line-by-line differential "
-                   "against a REAL controller on kube.NewFakeClient fed the same object history in the same interleaving, and the "
-                   "property itself (ordered run = cold start on the final objects) is evaluated on the real code for every case."),
+                   "latest object) and of the event queue: handlers_preserve_inv (every handler incl. needResync replays and "
+                   "recomputeServiceForPod keeps 'caches = function of the current objects'), convergence_any_order, "
+                   "convergence_to_derive (= the pure cold-start function derive), order_independent, needResync_no_leak, for all "
+                   "histories whose steps satisfy explicit decidable conditions; one witness theorem per order dependence the "
+                   "conditions exclude. The model is tied to /repo on every run by a line-by-line differential against a REAL "
+                   "controller on kube.NewFakeClient fed the same object history in the same interleaving, and the property itself "
+                   "(ordered run = cold start on the final objects) is evaluated on the real code for every case."),
     "level_note": ("Trusted: Lean kernel + {propext, Classical.choice, Quot.sound}; the hand-written model (tied by differential testing); "
                    "two verif-tagged accessor files; the fake Kubernetes client. One registry only; workload entries, MCS, multi-network "
                    "not modelled. The real controller is NOT confluent on all histories: the order dependences found are listed as "
